@@ -42,3 +42,5 @@ Proof. destruct p as [| |[] v l h]; simpl; try reflexivity; destruct (if a v the
 
 (* functional update of an assignment *)
 Definition upd (a : asg) (v : var) (b : bool) : asg := fun u => if N.eqb u v then b else a u.
+Lemma upd_same a v b : upd a v b v = b.
+Proof. unfold upd. rewrite N.eqb_refl. reflexivity. Qed.
